@@ -92,6 +92,33 @@ def gen_case(rng, tier):
     # definitions at any time relative to data: shuffle but keep each op's relative duplicates order
     rng.shuffle(pending)
     ops += pending
+    # a REJECTED definition must leave no trace: follow it by calls that would only succeed if it had been accepted
+    if rng.random() < 0.45:
+        k = rng.choice(["src_toobig", "src_toobig", "sig_badtype", "sig_nosrc", "sig_rate0", "sig_toobig"])
+        sid = rng.choice([5, 9, 200])
+        gid = rng.choice([11, 12, 250])
+        if k == "src_toobig":
+            ops.append("src %d g%d.%d e e e e" % (sid, rng.choice([BIG - 1, BIG, BIG + 7]), rng.randrange(1, 999)))
+            ops.append(proglib.sigdef_op(gid, sid, "f32"))          # names the rejected source
+            ops.append("fsr %d 0 10 1 3" % gid)
+            ops.append("src %d g3.1 e e e e" % sid)                  # now really defined
+            ops.append(proglib.sigdef_op(gid + 1, sid, "u8"))
+        else:
+            if k == "sig_badtype":
+                ops.append("sig %d 0 0 5 1000 0 0 0 0 0 0 e e" % gid)
+            elif k == "sig_nosrc":
+                ops.append("sig %d 77 0 %d 1000 0 0 0 0 0 0 e e" % (gid, DT["f32"]))
+            elif k == "sig_rate0":
+                ops.append("sig %d 0 0 %d 0 0 0 0 0 0 0 e e" % (gid, DT["f32"]))
+            else:
+                ops.append("sig %d 0 0 %d 1000 0 0 0 0 0 0 g%d.5 e" % (gid, DT["f32"], BIG + 3))
+            ops.append("fsr %d 0 10 1 3" % gid)
+            ops.append("anno %d 0 3f800000 1 0 2 g3.3" % gid)
+            ops.append("utc %d 0 5" % gid)
+            ops.append(proglib.sigdef_op(gid, 0, "i16"))            # the id is still free
+            ops.append("fsr %d 0 10 1 3" % gid)
+        sigs[gid] = ("f32", 0)
+        dist.append("after_rejection:" + k)
     ops += ["wclose", "ropen", "srcs", "sigs", "udr"]
     for gid in list(sigs.keys())[:3] + [4, 300]:
         ops.append("sigq %d" % gid)
@@ -99,6 +126,13 @@ def gen_case(rng, tier):
         ops.append("udr 2")
     ops.append("rclose")
     return ";".join(ops), dict(dist=dist or ["plain"], n=len(pending))
+
+
+def pre_run(ctx):
+    import os
+    if os.path.exists(os.path.join(vlib.VERIF, "tools", "props", "C13_defs.py")) and "drv_defs.ml" in open(os.path.join(vlib.VERIF, "ocaml", "DRIVERS")).read():
+        import C13_defs
+        C13_defs.run_defs(ctx, build=False)
 
 
 def run(ctx):
@@ -109,7 +143,7 @@ def run(ctx):
         "with tags incl. >12 bits, FSR/annotation/UTC calls on defined and undefined signals, all shuffled; strings NULL/empty/ASCII/UTF-8/long (around the "
         "1 MiB internal string block); then sources, signals, single-signal queries and user data are read back and compared with the extracted Spec "
         "(acceptance of every call + definitions as stored + user data in order); distinct = script",
-        timeout=60)
+        timeout=60, pre_run=pre_run, variants=("plain", "asan"))
 
 
 def replay(ctx, path):
